@@ -105,6 +105,16 @@ type Contracts struct {
 	Files     []string
 	NonNil    map[string]bool      // named types whose values are assumed non-nil (listed assumption)
 	GlobalInv map[string][]*Clause // package path -> invariants over init-only package variables
+	IndLemmas []*IndLemma
+}
+
+// IndLemma is a lemma over spec functions proved by induction on an integer variable:
+// base: claim[v := from]; step: v >= from && claim ==> claim[v := v+1]. Once both VCs are
+// discharged the universally quantified lemma is available as a hypothesis (with the pattern).
+type IndLemma struct {
+	Name, Vars, Var, From, Claim, Pattern string
+	File                                  string
+	Line                                  int
 }
 
 func NewContracts() *Contracts {
@@ -119,7 +129,7 @@ func newContracts0() *Contracts {
 
 var clauseKeywords = map[string]bool{"func": true, "extern": true, "functype": true, "iface": true, "params": true, "results": true,
 	"requires": true, "ensures": true, "modifies": true, "loop": true, "pure": true, "trusted": true, "noinline": true, "panics": true,
-	"pred": true, "ghost": true, "smt": true, "lemma": true, "assume": true, "end": true, "nonnil": true, "globalinv": true}
+	"pred": true, "ghost": true, "smt": true, "lemma": true, "assume": true, "end": true, "nonnil": true, "globalinv": true, "lemma_ind": true}
 
 func firstWord(s string) string {
 	s = strings.TrimSpace(s)
@@ -368,6 +378,25 @@ func (cs *Contracts) LoadContractFile(path, pkgPath string) error {
 			cs.Lemmas = append(cs.Lemmas, &Lemma{Name: strings.TrimSpace(c.text[:i]), C: k, Assume: c.kw == "assume", Pkg: pkgPath})
 		case "nonnil":
 			cs.NonNil[strings.TrimSpace(c.text)] = true
+		case "lemma_ind":
+			// name | vars (...) | induction v from e | claim <smt> | pattern (<terms>)
+			parts := strings.Split(c.text, "|")
+			if len(parts) != 5 {
+				return fmt.Errorf("%s:%d: lemma_ind needs: name | vars | induction v from e | claim | pattern", path, c.no)
+			}
+			il := &IndLemma{Name: strings.TrimSpace(parts[0]), File: path, Line: c.no}
+			il.Vars = strings.TrimSpace(strings.TrimPrefix(strings.TrimSpace(parts[1]), "vars"))
+			ind := strings.Fields(strings.TrimSpace(parts[2]))
+			if len(ind) < 4 || ind[0] != "induction" || ind[2] != "from" {
+				return fmt.Errorf("%s:%d: bad induction clause", path, c.no)
+			}
+			il.Var, il.From = ind[1], strings.Join(ind[3:], " ")
+			il.Claim = strings.TrimSpace(strings.TrimPrefix(strings.TrimSpace(parts[3]), "claim"))
+			il.Pattern = strings.TrimSpace(strings.TrimPrefix(strings.TrimSpace(parts[4]), "pattern"))
+			cs.IndLemmas = append(cs.IndLemmas, il)
+			// the lemma is usable as a hypothesis everywhere (its proof is an obligation of every
+			// property that loads this contract file)
+			cs.SmtRaw = append(cs.SmtRaw, fmt.Sprintf("(assert (forall %s (! (=> (>= %s %s) %s) :pattern %s)))", il.Vars, il.Var, il.From, il.Claim, il.Pattern))
 		case "globalinv":
 			k, err := mkClause(c.text, c.no)
 			if err != nil {
